@@ -122,9 +122,11 @@ func listenerSession(
 	wg.Add(1)
 	go func() {
 		defer func() {
-			wg.Done()
+			// close the listening socket before telling the wait group: whoever waits for the backends to be gone
+			// (CancelBackends during a reload) starts a listener on the same address right afterwards
 			lcf()
 			close(sessChan)
+			wg.Done()
 		}()
 		if verifhook.On {
 			vd, vw := fmt.Sprintf("%p", sessChan), fmt.Sprintf("%p", wg)
